@@ -316,6 +316,41 @@ def run(ctx, prog, only=None):
         return None
     A.require('DIDUrlQuery::matches/did-equal-if-given-and-fragments-equal', paths, r_match, replay=REPLAY)
 
+    # what counts as "a DID is included in the query" is decided by the scheme prefix alone: every query that starts with `did` has a DID
+    # part (the text up to the first of ? / #), well-formed or not - a stricter test (e.g. only well-formed DIDs count) makes a DID-URL-like
+    # query with a foreign or malformed DID part match by fragment alone
+    f_ds = prog.one(r'did_url_query::<impl at [^>]*>::did_str$')
+    dpaths, dex = A.paths(f_ds, inline=r'did_url_query::<impl at [^>]*>::did_str::\{closure')
+    ALLOWED = r'starts_with$|str>::find$|::min$|unwrap_or$|str>::get$|::get$|as_ref$|deref$|Deref|::len$|SliceIndex|Ord'
+
+    def r_ds(p):
+        if p.kind != 'return':
+            return 'panic ' + p.msg
+        sw = [c for c in p.find_calls(r'starts_with$')]
+        if len(sw) != 1 or 'SCHEME' not in term_str(sw[0].args[1]) and 'did' not in term_str(sw[0].args[1]):
+            return 'the DID part is not recognised by the scheme prefix'
+        extra = [c for c in p.calls if not c.inlined and not re.search(ALLOWED, c.name)]
+        if extra:
+            return 'the DID part is subject to a further test (%s)' % extra[0].name[-60:]
+        if p.took(sw[0].ret, 'false'):
+            return None if p.is_err() else 'a query without the scheme prefix has a DID part'
+        g = [c for c in p.find_calls(r'str>::get$|::get$')]
+        if not g or strip(p.term()) != g[-1].ret:
+            return 'with the scheme prefix the DID part is not the leading section of the query as it is'
+        return None
+    A.require('DIDUrlQuery::did_str/every-query-with-the-scheme-prefix-has-a-did-part', dpaths, r_ds, replay={'scenario': 'document_ops', 'cex': {'only': '[kid-did-part]'}})
+
+    f_fr = prog.one(r'did_url_query::<impl at [^>]*>::fragment$')
+    fpaths, fex = A.paths(f_fr, inline=r'did_url_query::<impl at [^>]*>::fragment::\{closure')
+
+    def r_fr(p):
+        if p.kind != 'return':
+            return None      # `index + 1` after rfind: the no-panic side is C05's sweep; this requirement is about what decides the fragment
+        if p.find_calls(r'DIDUrlQuery::did_str$|CoreDID::parse$|from_str$|DIDUrl::parse$'):
+            return 'the fragment of a query depends on whether its DID part is well-formed'
+        return None
+    A.require('DIDUrlQuery::fragment/independent-of-the-did-part-being-well-formed', fpaths, r_fr, replay={'scenario': 'document_ops', 'cex': {'only': '[kid-did-part]'}})
+
     f = prog.one(r'queryable::<impl at [^>]*>::query$')
     paths, ex = A.paths(f)
     cl = [g for g in prog.funcs if re.search(r'queryable::<impl at [^>]*>::query::\{closure#0\}$', g.name)]
@@ -429,5 +464,10 @@ def main(ctx):
 
     def order_of_removal():
         prog2, info2 = load(c19.CRATES)
-        c19.serde_and_change(ctx, prog2, only=r'^OrderedSet::remove/|^OrderedSet::change/')
+        c19.serde_and_change(ctx, prog2, only=r'^OrderedSet::remove/|^OrderedSet::change/|^OrderedSet::try_from<Vec>/')
+        # "any DID document the library accepts" has no two entries with one id inside one collection because the collections are built
+        # through the duplicate-rejecting constructor; "serialises to JSON that deserialises to an equal document" needs the one-or-set
+        # members (controller, service type / endpoint) to be written in the variant they were read in
+        c19.run(ctx, prog2, only=r'^OneOrSet::deserialize/')
+        c19.one_or_set_serialize_derived(ctx, prog2)
     guarded(ctx, 'order-preserving removal (shared with C19)', 'M', order_of_removal)
